@@ -583,6 +583,13 @@ func aggregate(pr *PropRun) []*NamedResult {
 			}
 			continue
 		}
+		if o.Undecidable != "" {
+			if nr.Status == "discharged" {
+				nr.Status = "undecidable"
+				nr.Failing = o
+			}
+			continue
+		}
 		if o.Kind == "cover" {
 			// covered as soon as one path can satisfy the hypothesis
 			switch {
@@ -612,6 +619,14 @@ func aggregate(pr *PropRun) []*NamedResult {
 		switch o.Result.Status {
 		case "unsat":
 		case "sat", "disagree":
+			if o.Tainted != "" {
+				// it fails only on a path where a callee's clause could not be assumed
+				if nr.Status == "discharged" {
+					nr.Status = "undecidable"
+					nr.Failing = o
+				}
+				break
+			}
 			if nr.Status != "violated" {
 				nr.Status = "violated"
 				nr.Failing = o
@@ -658,6 +673,9 @@ func writeEvidence(verifDir string, pr *PropRun, results []*NamedResult, violati
 		}
 		if r.Status == "unknown" && !contains(baselineNames, r.Name) {
 			continue // undecided new obligation: not claimed
+		}
+		if r.Status == "undecidable" {
+			continue
 		}
 		obl++
 		if r.Status == "discharged" {
